@@ -40,11 +40,21 @@ def meta_of(mod, tier):
     def pick(k, default):
         v = m.get(k, default)
         return v.get(tier, default) if isinstance(v, dict) else v
+    def quick_of(k, default):
+        v = m.get(k, default)
+        return v.get("quick", default) if isinstance(v, dict) else v
+    me, mn = int(pick("min_evals", 20)), int(pick("min_nontrivial", 2))
+    if tier == "thorough":
+        # The floors exist to detect "the deciding monitor was never reached", not to certify depth (the evidence file reports the counts).
+        # Budgets are wall-clock, so the number of evaluations depends on machine load: a thorough run must not turn INCONCLUSIVE
+        # merely because other jobs share the cores.  Floor = 1/8 of the value calibrated on an idle machine, never below the quick floor.
+        me = max(int(quick_of("min_evals", 20)), me // 8)
+        mn = max(int(quick_of("min_nontrivial", 2)), mn // 8)
     return {
         "nshards": int(os.environ.get("PV_SHARDS") or pick("shards", 1 if tier == "quick" else 8)),
         "budget_s": float(os.environ.get("PV_BUDGET") or pick("budget_s", 60 if tier == "quick" else 600)),
-        "min_evals": int(pick("min_evals", 20)),
-        "min_nontrivial": int(pick("min_nontrivial", 2)),
+        "min_evals": me,
+        "min_nontrivial": mn,
     }
 
 
